@@ -390,3 +390,14 @@ CANARIES = [
          old='        if new_regions:\n', new='        if False:\n',
          expect='eat_chunk/new-region'),
 ]
+
+
+# Code-independent schema lemma, checked by the Lean 4 kernel on every run:
+# init + step (+ monotone rejection, uniqueness of the verdict in R) imply
+# that any two chunkings of a stream end with the same verdict.  The
+# hypotheses are the obligation families discharged per inspector class.
+LEMMAS = [
+    dict(name='schema/init+step+uniqueness=>every-chunking',
+         props=['C01'], file='lean/ChunkInduction.lean',
+         theorems=['run_none', 'run_spec', 'chunk_independent']),
+]
